@@ -249,7 +249,7 @@ def run(tier):
             if mark_field_writes(f, fld):
                 writers[fld].add(k)
     rep.extra["consumers"] = sorted(short(k) for k in consumers)
-    rep.floor("scanner functions that consume input", len(consumers), 13)
+    rep.floor("scanner functions that consume input", len(consumers), 10)
     for k in sorted(consumers | writers["index"]):
         rep.check(k in consumers and k in writers["index"], "consume-iff-advance", short(k),
                   "this function %s" % ("consumes input but never advances mark.index" if k in consumers else "advances mark.index without consuming input"),
@@ -328,7 +328,7 @@ def run(tier):
             rep.check(bad is None, "span-order", "%s:Span::new" % short(k), "a span's start can be read from the cursor after its end was read (start > end)",
                       site=site(f, t["sp"]), detail={"start_reads": sorted(A), "end_reads": sorted(Bs), "offending": bad})
     rep.extra["span_new_sites"] = {"total": nspan, "both_from_cursor": nboth}
-    rep.floor("Span::new sites", nspan, 10)
+    rep.floor("Span::new sites", nspan, 8)
 
     # (f) Display prints col + 1
     disp = F.fn("<saphyr_parser::scanner::ScanError as std::fmt::Display>::fmt")
@@ -356,7 +356,7 @@ def run(tier):
             e = cfg.expr_operand(oe, t["args"][1], 6)
             rep.check(e == ("param", 3), "loader-span", "on_event:with_span#%d" % nws, "a loaded node does not get the span of the event that created it",
                       site=site(oe, t["sp"]), detail=cfg.expr_str(e))
-    rep.floor("with_span calls in on_event", nws, 5)
+    rep.floor("with_span calls in on_event", nws, 4)
     # every from_bare_yaml result in on_event goes through with_span
     nfb = 0
     for bb, t, ck, fr in oe.calls():
